@@ -10,8 +10,10 @@ package c12
 // processor, task managers, contexts, result-set builder. What is harness: the transport (request ->
 // processor of the target, as query.TaskHandler.process does it: run on a pool, a returned error
 // becomes an error response on the requester's stream), the streams (response -> task manager of
-// the receiver, as the task client's receive loop does it), and the state manager answers
-// (Choose / GetDatabaseCfg / which brokers are alive).
+// the receiver, as the task client's receive loop does it), the pool on which a broker handles
+// responses (inline, see inlinePool), the delivery order of the leaf responses of one request, and the
+// state manager answers (Choose / GetDatabaseCfg mirror coordinator/broker's stateManager, or are
+// delegated to a real one: field State).
 
 import (
 	"context"
